@@ -450,10 +450,15 @@ def run(check, tier, seed):
             if key in reported:
                 continue
             reported.add(key)
+            shrink_deadline = time.time() + float(os.environ.get("VERIF_SHRINK_BUDGET", 120))
+
+            def _still_fails(c, _key=key, _deadline=shrink_deadline):
+                if time.time() > _deadline:      # shrinking is a convenience: never let it run away
+                    return False
+                return any(str(ff.get("clause")) == _key and not (check.classify(c, ff) in known_ids)
+                           for ff in evaluate(check, c)[1])
             try:
-                small = check.shrink(case, lambda c: any(
-                    str(ff.get("clause")) == key and not (check.classify(c, ff) in known_ids)
-                    for ff in evaluate(check, c)[1]))
+                small = check.shrink(case, _still_fails)
             except Exception:
                 small = case
             res, fails = evaluate(check, small)
